@@ -254,6 +254,28 @@ func (rn *runner) emitSite(st *site, res siteResult) {
 				note("categories", "fault-at-index-set-after-pack-rollover")
 			}
 		}
+		if def.KV == "sqlite" || strings.HasPrefix(def.Name, "compS") {
+			note("categories", "fault-over-sql-index")
+			if d.Layer == "bp-large" && d.Op == "ReceiveBlob" {
+				note("categories", "fault-at-zip-upload-with-sql-index")
+			}
+			if strings.HasSuffix(d.Layer, "-meta") || strings.HasSuffix(d.Layer, "-index") {
+				note("categories", "fault-in-sql-index-call")
+			}
+		}
+		if def.Long && o.Kind == "receive" && (d.Index-res.base >= 4 || d.Op == "RemoveBlobs") {
+			// a receive makes 4 lower calls of its own; the rest belongs to the compaction it started
+			note("categories", "fault-in-background-meta-compaction")
+		}
+		if d.Mode == "truncate" && (d.Op == "Fetch" || d.Op == "SubFetch") {
+			note("categories", "fetched-body-fails-half-way")
+		}
+		if d.Mode == "truncate" && (d.Op == "StatBlobs" || d.Op == "RemoveBlobs") {
+			note("categories", "batched-lower-call-does-half-then-fails")
+		}
+		if d.Mode == "truncate" && def.Comp && (d.Op == "EnumerateBlobs" || d.Op == "Find") {
+			note("categories", "partial-scan-inside-composition")
+		}
 		if d.Op == "CommitBatch" && o.Kind == "remove" {
 			note("categories", "fault-at-commitbatch-of-remove")
 		}
@@ -332,6 +354,7 @@ func childGate() {
 	}
 	type phase struct {
 		name string
+		prep func(i int) // healthy preparation of repetition i (nil: none), so that the call has real work to do
 		call func(i int) error
 	}
 	drain := func(after string, limit int) error {
@@ -343,15 +366,23 @@ func childGate() {
 		return <-errc
 	}
 	phases := []phase{
-		{"stat", func(int) error { return in.S.StatBlobs(ctx, refs, func(blob.SizedRef) error { return nil }) }},
-		{"remove", func(i int) error {
+		{"stat", nil, func(int) error { return in.S.StatBlobs(ctx, refs, func(blob.SizedRef) error { return nil }) }},
+		{"remove", func(i int) {
+			if !in.caps.Remove {
+				return
+			}
+			// a failing remove may have removed one of the two: put them back
+			for _, k := range []int{50 + i%10, 50 + (i+3)%10} {
+				in.S.ReceiveBlob(ctx, uni[k].Ref, bytes.NewReader(uni[k].Data))
+			}
+		}, func(i int) error {
 			if !in.caps.Remove {
 				return nil
 			}
 			return in.S.RemoveBlobs(ctx, []blob.Ref{refs[50+i%10], refs[50+(i+3)%10]})
 		}},
-		{"enumerate", func(int) error { return drain("", 1000) }},
-		{"fetch", func(i int) error {
+		{"enumerate", nil, func(int) error { return drain("", 1000) }},
+		{"fetch", nil, func(i int) error {
 			rc, _, err := in.S.Fetch(ctx, refs[i%50])
 			if err == nil {
 				_, err = io.Copy(io.Discard, rc)
@@ -359,7 +390,11 @@ func childGate() {
 			}
 			return err
 		}},
-		{"receive", func(i int) error {
+		{"receive", func(i int) {
+			if in.caps.Remove {
+				in.S.RemoveBlobs(ctx, []blob.Ref{extra[i%len(extra)].Ref})
+			}
+		}, func(i int) error {
 			b := extra[i%len(extra)]
 			_, err := in.S.ReceiveBlob(ctx, b.Ref, bytes.NewReader(b.Data))
 			return err
@@ -367,41 +402,79 @@ func childGate() {
 	}
 	for _, ph := range phases {
 		hung := false
-		for i := 0; i <= reps; i++ {
-			healthy := i == reps // the last call of a phase is made without a fault
-			if !healthy {
-				in.plan.Fault(in.plan.Calls(), inject.Error)
+		// learn how many lower-layer calls the operation makes, to place the failure at its first,
+		// its middle and its last lower call (a leak may sit on any of the error paths)
+		var n int64
+		if !ev.WithTimeout(limit, func() {
+			defer func() { recover() }()
+			if ph.prep != nil {
+				ph.prep(reps + 1)
 			}
-			var perr error
-			var pv any
-			ok := ev.WithTimeout(limit, func() {
-				defer func() { pv = recover() }()
-				perr = ph.call(i)
-			})
-			in.plan.Clear()
-			if !ok {
-				hung = true
-				rec.Counts[ph.name+"_hung_at_repetition"] = i
-				if healthy {
-					rec.Counts[ph.name+"_healthy_call_hung"] = 1
+			a := in.plan.Calls()
+			ph.call(reps + 1)
+			n = in.plan.Calls() - a
+		}) {
+			rec.Counts[ph.name+"_hung_at_repetition"] = 0
+			rec.Counts[ph.name+"_healthy_call_hung"] = 1
+			rec.Notes = append(rec.Notes, ph.name)
+			if rec.What == "" {
+				rec.What = dump()
+			}
+			continue
+		}
+		offs := []int64{0}
+		for _, o := range []int64{n / 2, n - 1} {
+			if o > offs[len(offs)-1] {
+				offs = append(offs, o)
+			}
+		}
+		rec.Counts[ph.name+"_lower_calls"] = int(n)
+		rec.Counts[ph.name+"_fault_positions"] = len(offs)
+		for oi, off := range offs {
+			for i := 0; i <= reps && !hung; i++ {
+				healthy := i == reps // the last call of a round is made without a fault
+				var perr error
+				var pv any
+				ok := ev.WithTimeout(limit, func() {
+					defer func() { pv = recover() }()
+					if ph.prep != nil {
+						ph.prep(i)
+					}
+					if !healthy {
+						in.plan.Fault(in.plan.Calls()+off, inject.Error)
+					}
+					perr = ph.call(i)
+				})
+				in.plan.Clear()
+				rec.Counts["gate_calls"]++
+				if !ok {
+					hung = true
+					rec.Counts[ph.name+"_hung_at_repetition"] = i
+					rec.Counts[ph.name+"_hung_at_fault_position"] = oi
+					if healthy {
+						rec.Counts[ph.name+"_healthy_call_hung"] = 1
+					}
+					rec.Notes = append(rec.Notes, ph.name)
+					if rec.What == "" {
+						rec.What = dump()
+					}
+					break
 				}
-				rec.Notes = append(rec.Notes, ph.name)
-				if rec.What == "" {
-					rec.What = dump()
+				switch {
+				case pv != nil:
+					rec.Counts[ph.name+"_panics"]++
+				case healthy && perr != nil && !(ph.name == "remove" && !in.caps.Remove):
+					rec.Counts[ph.name+"_healthy_call_failed"]++
+				case healthy:
+					rec.Counts[ph.name+"_healthy_call_ok"]++
+				case perr != nil:
+					rec.Counts[ph.name+"_failed_as_planned"]++
+				default:
+					rec.Counts[ph.name+"_absorbed"]++
 				}
+			}
+			if hung {
 				break
-			}
-			switch {
-			case pv != nil:
-				rec.Counts[ph.name+"_panics"]++
-			case healthy && perr != nil && !(ph.name == "remove" && !in.caps.Remove):
-				rec.Counts[ph.name+"_healthy_call_failed"]++
-			case healthy:
-				rec.Counts[ph.name+"_healthy_call_ok"]++
-			case perr != nil:
-				rec.Counts[ph.name+"_failed_as_planned"]++
-			default:
-				rec.Counts[ph.name+"_absorbed"]++
 			}
 		}
 		if !hung {
